@@ -394,6 +394,46 @@ func c14(r *Report) {
 			}
 			r.Decide("flow", "(*M/header.ViaModifier).hasLoop: compares the whole received-by token (name and boundary together)", okTok, "one comparison against the token built from requestedBy and boundary", "the received-by field is taken apart before comparing: a proxy whose name contains the separator never recognises its own Via entry", hl.Pos())
 		}
+		// the entry the modifier stamps and the entry it recognises as its own are built
+		// from the same state: the receiver fields flowing into the Via value written are
+		// those flowing into the loop comparison (a name cached at construction while the
+		// comparison reads the live boundary makes a later SetBoundary blind the detection)
+		if hl := w.Fn("header", "ViaModifier.hasLoop"); hl != nil {
+			recvFields := func(f *ssa.Function, v ssa.Value) map[string]bool {
+				out := map[string]bool{}
+				for x := range w.backSlice(v, flowOpt{BinOps: true, Through: map[string]bool{"fmt.Sprintf": true, "strings.Join": true}}) {
+					if fa, y := x.(*ssa.FieldAddr); y && len(f.Params) > 0 && fa.X == ssa.Value(f.Params[0]) {
+						out[fieldObj(fa).Name()] = true
+					}
+				}
+				return out
+			}
+			stamp := map[string]bool{}
+			for _, hc := range headerCalls(vreq) {
+				if (hc.Method == "Set" || hc.Method == "Add") && hc.IsKey && hc.Key == "Via" {
+					for k := range recvFields(vreq, hc.Call.Common().Args[2]) {
+						stamp[k] = true
+					}
+				}
+			}
+			cmp := map[string]bool{}
+			for _, in := range instrs(hl) {
+				if b, isB := in.(*ssa.BinOp); isB && (b.Op == token.EQL || b.Op == token.NEQ) {
+					for _, side := range []ssa.Value{b.X, b.Y} {
+						for k := range recvFields(hl, side) {
+							cmp[k] = true
+						}
+					}
+				}
+			}
+			same := len(stamp) > 0 && len(stamp) == len(cmp)
+			for k := range stamp {
+				if !cmp[k] {
+					same = false
+				}
+			}
+			r.Decide("sibling", "(*M/header.ViaModifier): the stamped entry and the loop test are built from the same fields", same, fmt.Sprintf("both from %v", keys(stamp)), fmt.Sprintf("the Via entry is written from %v but the loop test compares against %v: after one of them changes (SetBoundary) the proxy no longer recognises its own entry, forwards the looping request and stamps it again", keys(stamp), keys(cmp)), vreq.Pos())
+		}
 		// response side reads the same key and answers 400
 		getKey := ""
 		for _, c := range plainCalls(vres, "(*M.Context).Get") {
@@ -422,14 +462,46 @@ func c14(r *Report) {
 			if h.Method != "Set" || h.Key != "Via" {
 				continue
 			}
-			// phi(new entry alone, Sprintf("%s, %s", existing, new))
-			for v := range w.backSlice(h.Call.Common().Args[2], flowOpt{}) {
-				c, y := v.(*ssa.Call)
-				if !y || calleeName(c) != "fmt.Sprintf" {
-					continue
+			// the value is the own entry alone, or existing entries followed by the own
+			// entry: in every concatenation (a + b, Sprintf) feeding the header, whatever
+			// derives from the received Via lines comes before whatever derives from the
+			// modifier's own fields
+			isExisting := func(v ssa.Value) bool {
+				return anyIn(w.backSlice(v, flowOpt{Through: map[string]bool{"strings.Join": true}, CallArg: true}), func(x ssa.Value) bool {
+					if lk, isL := x.(*ssa.Lookup); isL {
+						k, isK := constString(lk.Index)
+						return isK && k == "Via"
+					}
+					if c, isC := x.(*ssa.Call); isC && (calleeName(c) == "(net/http.Header).Values" || calleeName(c) == "(net/http.Header).Get") && len(c.Call.Args) == 2 {
+						k, isK := constString(c.Call.Args[1])
+						return isK && k == "Via"
+					}
+					return false
+				})
+			}
+			isOwn := func(v ssa.Value) bool {
+				return anyIn(w.backSlice(v, flowOpt{BinOps: true, Through: map[string]bool{"fmt.Sprintf": true, "strconv.Itoa": true}}), func(x ssa.Value) bool {
+					fa, y := x.(*ssa.FieldAddr)
+					return y && len(vreq.Params) > 0 && fa.X == ssa.Value(vreq.Params[0])
+				})
+			}
+			for _, leaf := range resolveAll(h.Call.Common().Args[2]) {
+				ops := concatOperands(leaf)
+				ex, own := -1, -1
+				for i, o := range ops {
+					if isExisting(o) && ex < 0 {
+						ex = i
+					}
+					if isOwn(o) && !isExisting(o) {
+						own = i
+					}
 				}
-				if f, isC := constString(c.Call.Args[0]); isC && f == "%s, %s" {
+				if ex >= 0 && own > ex {
 					okVia = true
+				}
+				if ex >= 0 && own >= 0 && own < ex {
+					okVia = false
+					r.Fail("flow", "(*M/header.ViaModifier).ModifyRequest: the own entry is not put in front of received entries", "this proxy's entry is written before the entries it received: the Via chain no longer shows the order of the hops", nil, h.Call.Pos())
 				}
 			}
 		}
@@ -561,6 +633,42 @@ func c14(r *Report) {
 				if rel, adm := constCmpAdmits(ce, isLenOfCL, 1); rel {
 					r.Decide("path", "framing modifier: Content-Length values are compared even when the header has a single line", adm, "the guard on the number of Content-Length lines admits one line", "the mismatch test is skipped for a single Content-Length line: conflicting values folded into one line (\"42, 32\") are not flagged", ce.If.Pos())
 				}
+			}
+		}
+		// both headers are examined before a request is accepted: no successful return is
+		// reachable without having looked at Content-Length and at Transfer-Encoding
+		gbf := G(bf)
+		for _, hdr := range []string{"Content-Length", "Transfer-Encoding"} {
+			isLook := func(i ssa.Instruction) bool {
+				lk, y := i.(*ssa.Lookup)
+				if !y {
+					return false
+				}
+				k, isK := constString(lk.Index)
+				return isK && k == hdr
+			}
+			var wit []ssa.Instruction
+			for _, ret := range returns(bf) {
+				okNil := false
+				for _, v := range retVals(ret, 0) {
+					for _, l := range resolveAll(v) {
+						if isNilConst(l) {
+							okNil = true
+						}
+					}
+				}
+				if !okNil {
+					continue
+				}
+				if p := gbf.PathTo([]ssa.Instruction{gbf.Entry()}, true, isLook, func(i ssa.Instruction) bool { return i == ssa.Instruction(ret) }); p != nil {
+					wit = p
+				}
+			}
+			r.Paths++
+			if wit != nil {
+				r.Fail("path", "framing modifier: no request is accepted without its "+hdr+" lines having been examined", "a successful return is reachable without looking at "+hdr+" (an early return after the other check): a request with bad "+hdr+" framing passes when the other header is fine", witness(w, wit), bf.Pos())
+			} else {
+				r.Hold("path", "framing modifier: no request is accepted without its "+hdr+" lines having been examined", "every path to a nil return passes the lookup", bf.Pos())
 			}
 		}
 		r.Decide("path", "framing modifier has an error exit for each of the two conditions", nerr >= 2, fmt.Sprintf("%d error returns", nerr), "a bad-framing condition is no longer reported as an error", bf.Pos())
